@@ -577,6 +577,7 @@ def run(ctx: Ctx):
         "an explicit path wins (the discovered pyproject.toml is used only when path is None); the file at that path is read; [tool.gotranx] is returned, {} when there is none",
         "read_config no longer reads the file named by an explicit --config path (falling back to the discovered pyproject.toml only when none is given) and returns its [tool.gotranx] table",
     )
+    check_config_discovery(ctx, "R18.c")
     for k_ in ("explicit-path-wins", "reads-path"):
         (ctx.ok if vd == "ok" else (lambda *a, **kw: None))("R18.c", rc.key(k_), "see ::table (the whole function equals the vetted value)", rc.where())
 
@@ -689,3 +690,28 @@ def check_get_code_forwards(ctx: Ctx, rule: str, option: str):
             ctx.undecided(rule, key, f"{short}::get_code: no call of add_schemes is found in what it computes", g.where())
             continue
         ctx.check(option in passed and _mentions_param(passed[option], option), rule, key, f"get_code forwards {option}", f"{short}::get_code does not forward {option} to add_schemes", g.where())
+
+
+def check_config_discovery(ctx: Ctx, rule: str):
+    """Without --config the project's pyproject.toml is found from any directory *inside* the project: the search starts at
+    the current directory and walks up (black's find_pyproject_toml, or a loop over the parents).  A lookup in the current
+    directory only silently ignores the whole [tool.gotranx] table when a command is run from a sub-directory."""
+    from sa import av as _av
+
+    f = ctx.sm.func("cli/utils.py", "find_pyproject_toml_config", required=False)
+    if f is None:
+        return
+    v = util.value_of(ctx, f, everything=True)
+    key = f.key("searches-upwards")
+    if _av.has_unk(v):
+        ctx.undecided(rule, key, "how the configuration file is located is not understood", f.where())
+        return
+    text = _av.show(v)
+    upward = "find_pyproject_toml" in text or ".parents" in text or ".parent" in text or "find_project_root" in text or any(isinstance(n, (ast.While, ast.For)) for n in ast.walk(f.node))
+    here_only = [o for o in _av.find_all(v, "op") if o[1] == "/" and "cwd" in _av.show(o[2]) and o[3] == _av.C("pyproject.toml")]
+    if upward:
+        ctx.ok(rule, key, "the search walks up from the current directory", f.where())
+    elif here_only:
+        ctx.fail(rule, key, f"find_pyproject_toml_config looks at `{_av.show(here_only[0])}` only: run from a sub-directory of the project, the commands silently ignore the [tool.gotranx] configuration (scheme, delta, formats) that the same command honours in the project root", f.where())
+    else:
+        ctx.undecided(rule, key, f"how the configuration file is located is not recognised ({text[:100]})", f.where())
